@@ -25,26 +25,83 @@ import sys, json, hashlib
 sys.path.insert(0, %r)
 from hv import hid
 progs = json.load(sys.stdin)
-out = []
-for name, src in progs:
-    row = []
-    for unchecked in (False, True):
-        for W in (2, 4):
-            try:
-                lines = hid.compile_lines(src, W, 64, unchecked)
-                row.append(hashlib.sha256(b"\n".join(lines)).hexdigest())
-            except Exception as e:
-                row.append("ERR " + type(e).__name__)
-    out.append(row)
+order = %d
+# the ORDER in which the (program, configuration) pairs are compiled in this process differs from the parent's, so that
+# anything one compilation leaves behind for the next (a module-level memo, a class attribute) shows as a difference
+configs = [(u, W) for u in (False, True) for W in (2, 4)]
+todo = [(i, j) for i in range(len(progs)) for j in range(4)]
+if order %% 4 == 1:
+    todo = [(i, j) for i in range(len(progs)) for j in (3, 2, 1, 0)]
+elif order %% 4 == 2:
+    todo = [(i, j) for j in (1, 0, 3, 2) for i in reversed(range(len(progs)))]
+elif order %% 4 == 3:
+    todo = [(i, j) for i in reversed(range(len(progs))) for j in (2, 0, 3, 1)]
+out = [[None] * 4 for _ in progs]
+for n, (i, j) in enumerate(todo):
+    u, W = configs[j]
+    if order %% 4 == 3 and n %% 2 == 0:
+        try:
+            hid.compile_lines(progs[i][1], (3, 8)[n // 2 %% 2], 64, not u)       # an unrelated configuration in between
+        except Exception:
+            pass
+    try:
+        lines = hid.compile_lines(progs[i][1], W, 64, u)
+        out[i][j] = hashlib.sha256(b"\n".join(lines)).hexdigest()
+    except Exception as e:
+        out[i][j] = "ERR " + type(e).__name__
 json.dump(out, sys.stdout)
 '''
+
+
+COLD = r'''
+import sys, hashlib
+sys.path.insert(0, %r)
+from hv import hid
+src = sys.stdin.read()
+try:
+    print(hashlib.sha256(b"\n".join(hid.compile_lines(src, int(sys.argv[1]), 64, sys.argv[2] == "1"))).hexdigest())
+except Exception as e:
+    print("ERR " + type(e).__name__)
+'''
+
+
+def digest_cold(src, W, unchecked):
+    """One compilation in a process of its own: nothing was compiled before it."""
+    env = dict(os.environ)
+    env['PYTHONHASHSEED'] = '0'
+    env['PYTHONPATH'] = os.path.dirname(os.path.dirname(os.path.dirname(os.path.abspath(__file__))))
+    p = subprocess.run([sys.executable, '-c', COLD % env['PYTHONPATH'], str(W), '1' if unchecked else '0'], input=src.encode(), env=env,
+                       stdout=subprocess.PIPE, stderr=subprocess.PIPE, timeout=600)
+    if p.returncode != 0:
+        raise RuntimeError(f'child compiler process failed: {p.stderr.decode()[-500:]}')
+    return p.stdout.decode().strip()
+
+
+def _cold(st, sd):
+    """Every (program, configuration) compiled alone in a fresh process must equal what this long-lived process, which has
+    compiled many other things before and in between, produces for it."""
+    for name, src in sd:
+        for W in (2, 3, 4):
+            for unchecked in (False, True):
+                st.add('evaluations')
+                try:
+                    here = hashlib.sha256(b'\n'.join(hid.compile_lines(src, W, 64, unchecked))).hexdigest()
+                except Exception as e:
+                    here = 'ERR ' + type(e).__name__
+                cold = digest_cold(src, W, unchecked)
+                if here != cold:
+                    st.viol(f'{name}: W={W} unchecked={unchecked}: a process that compiled other programs / configurations before produces different assembly than a fresh process',
+                            {'kind': 'cold', 'seed_name': name})
+                else:
+                    st.add('identical_builds')
 
 
 def digests_in_child(progs, hashseed):
     env = dict(os.environ)
     env['PYTHONHASHSEED'] = str(hashseed)
     env['PYTHONPATH'] = os.path.dirname(os.path.dirname(os.path.dirname(os.path.abspath(__file__))))
-    p = subprocess.run([sys.executable, '-c', CHILD % env['PYTHONPATH']], input=json.dumps(progs).encode(), env=env,
+    order = hashseed if isinstance(hashseed, int) else 3
+    p = subprocess.run([sys.executable, '-c', CHILD % (env['PYTHONPATH'], order)], input=json.dumps(progs).encode(), env=env,
                        stdout=subprocess.PIPE, stderr=subprocess.PIPE, timeout=600)
     if p.returncode != 0:
         raise RuntimeError(f'child compiler process failed: {p.stderr.decode()[-500:]}')
@@ -64,6 +121,15 @@ empty @is_you(int n, byte b) {
     o([66, b]); o([b, 66]); o([1, 2]); o(['x', 'y']); o([b]); o([n, b]); o([true, n > 1]); o(["s", "t"]); o([1, 'c']);
     const byte[] x = [66, b]; const int[] y = [66, b]; write(x[0]); write(y[0]);
     writeln([b, 1, 'c', 300 - 45].length);
+}
+"""),
+    ('wrapping_constants', """
+const int K = 200; const int M = 1000; const int H = 256; const byte Y = 200;
+int g = 200 * 200; int[] tab = [300 * 300, 65536 / 3, 32767 + 1, 70000 % 9];
+empty @is_you(int n) {
+    writeln(200 * 200); writeln(K * K); writeln(M * M); writeln(H * H); writeln(H * H * H); writeln(32767 + 1); writeln(-32768 - 1); writeln(65535 + n);
+    writeln(8388607 + 1); writeln(4096 * 4096); writeln(2147483647 + 1); writeln(65536 * 65536); writeln(100000 / 7); writeln(70000 % 9); writeln(40000 > 0);
+    writeln(g); writeln(tab[0] + tab[1] + tab[2] + tab[3]); writeln((Y + Y) is int); writeln((300 is byte) is int); writeln(n + 200 * 200); writeln(K * K == 40000);
 }
 """),
     ('many_tables', """
@@ -91,6 +157,9 @@ def items(tier):
     hs = list(range(16)) if tier == 'quick' else list(range(64)) + ['random', 'random']
     for h in hs:
         out.append((i, 'repro', h))
+        i += 1
+    for lo in range(0, len(seeds()), 4):
+        out.append((i, 'cold', lo, lo + 4))
         i += 1
     # (b) sweeps
     nS = len(seq.family_S('quick'))
@@ -223,6 +292,10 @@ def run_item(item, tier):
                 else:
                     st.add('identical_builds')
         st.sample({'reproducibility': f'PYTHONHASHSEED={h}', 'programs': len(sd), 'configs': 'checked/unchecked x W 2,4'})
+    elif kind == 'cold':
+        base_digests()          # this process has compiled every seed program at two word sizes first
+        _cold(st, seeds()[item[2]:item[3]])
+        st.sample({'reproducibility': 'fresh process per compilation', 'programs': [n for n, _ in seeds()[item[2]:item[3]]]})
     elif kind.startswith('sweep'):
         if kind == 'sweepS':
             src = seq.build_S(seq.family_S('quick')[item[2]][1])
@@ -357,7 +430,8 @@ def lint(st, name, src, must_compile=True):
 def coverage(total, tier):
     cov = std_coverage(total, {
         'reproducibility': f'{len(seeds())} seed programs (all examples and one program of every generated family) x checked/unchecked x W 2,4, compiled twice '
-                           'in-process and in a fresh process per PYTHONHASHSEED in ' + ('0..15' if tier == 'quick' else '0..63 plus two random seeds')
+                           'in-process and in a fresh process per PYTHONHASHSEED (each child compiles the (program, configuration) pairs in one of four different orders, one of them with unrelated W=3/W=8 builds in between), '
+                           'and every (program, W in 2,3,4, checked/unchecked) alone in a process of its own; hash seeds ' + ('0..15' if tier == 'quick' else '0..63 plus two random seeds')
                            + ' (bound on the hash-seed dimension: not all 2^32 seeds)',
         'stack_monotonicity': 'full sweeps (every size from 1 word to S_min+8, then 256 and 1024) of S batches, all F programs, every X program of C08 with a dynamic array left by falling through / returning, and every 29th (thorough: 7th) other X program',
         'maximum_stack': 'two programs using global and argv arrays of every element type at the 13 largest legal stack sizes and around half of it (W=2)',
@@ -384,14 +458,15 @@ def replay(case):
     if k == 'sweep':
         return replay_sweep(case)
     if k == 'repro':
-        sd = [s for s in seeds() if s[0] == case['seed_name']]
-        global _BASE
-        got = digests_in_child(sd, case['hashseed'])
-        row = []
-        for unchecked in (False, True):
-            for W in (2, 4):
-                row.append(hashlib.sha256(b'\n'.join(hid.compile_lines(sd[0][1], W, 64, unchecked))).hexdigest())
-        return [] if got[0] == row else [f'{case["seed_name"]}: digests differ under PYTHONHASHSEED={case["hashseed"]}']
+        sd = seeds()
+        k_ = [s[0] for s in sd].index(case['seed_name'])
+        got = digests_in_child(sd, case['hashseed'])            # the whole list: the order of compilations is part of the case
+        cold = [digest_cold(sd[k_][1], W, unchecked) for unchecked in (False, True) for W in (2, 4)]
+        return [] if got[k_] == cold else [f'{case["seed_name"]}: digests differ under PYTHONHASHSEED={case["hashseed"]} (compilation order {case["hashseed"] % 4 if isinstance(case["hashseed"], int) else 3})']
+    if k == 'cold':
+        st2 = Stats()
+        _cold(st2, [s for s in seeds() if s[0] == case['seed_name']])
+        return [v['msg'] for v in st2.get('viol', [])]
     if k == 'bigstack':
         st2 = run_item((0, 'bigstack', case['k']), 'quick')
         return [v['msg'] for v in st2.get('viol', [])]
